@@ -288,6 +288,7 @@ class Executor:
         self.models = models or []
         self.max_paths = max_paths
         self.npaths = 0
+        self.nblocks = 0  # MIR basic blocks executed over all paths
         self.fresh = 0
         self.called = []  # names of MIR functions symbolically executed
 
@@ -333,6 +334,7 @@ class Executor:
                                              "pc": list(st.pc), "fn": fn.path})
                     break
                 stmts, term = fn.blocks[bb]
+                self.nblocks += 1
                 frame = st.frames[fidx]
                 for s in stmts:
                     self.exec_stmt(fn, s, st, frame)
